@@ -146,6 +146,8 @@ def run(rep: Report, tier: str) -> None:
     stored_structures_untouched(P, rep, "R12.12")
     from sa.checks.c11 import call_scoped_class_state as _class_state
     _class_state(P, rep, "R12.13")
+    rep.rule("R12.14", "no InterpreterAnalyzer.visit_* method mutates the shared parts (components dict, Component objects) of a structure obtained from self.visit(operand)")
+    interpreter_leaves_operands(P, rep, "R12.14")
     rep.rule("R12.11", "the interpreter evaluates a deep copy of a user-defined operator's stored body on every path")
     udo_body_copied(P, rep, "R12.11")
 
@@ -778,4 +780,42 @@ def stored_structures_untouched(P: Program, rep: Report, rule: str) -> int:
                                 f"`{s_.text[:90]}` mutates {', '.join(sorted(set(s_.origins)))} (reached from {f.qualname}): that object is shared by every statement of the script, "
                                 f"so a later statement that enumerates the components of the same dataset sees the change - the result depends on which statements were transpiled before"))
     rep.floor(f"{rule} transpiler methods analysed", n, 150)
+    return n
+
+
+def interpreter_leaves_operands(P: Program, rep: Report, rule: str, only_methods: Optional[Set[str]] = None, floor: int = 30) -> int:
+    """InterpreterAnalyzer.visit_X returns, for a dataset name, a SHALLOW copy of the stored dataset: the Dataset object is fresh, its components
+    dict and Component objects are the stored ones.  No visit_* method (nor anything it calls) may mutate those shared parts: a component
+    deleted, renamed or retyped in place changes what every later statement reading the same dataset sees.  Effect analysis with
+    `self.visit(...)` results as fresh holders of shared parts; the operator-level in-place edits already reviewed under R12.6
+    (OPERAND_MUTATION_REFERENCE) are exempt here with the same reasons.  Shared with C03 (aggregation / having)."""
+    A = EffectAnalysis(P)
+    A.source_calls_fresh = {"visit": "the structure of an operand (shallow copy of a stored dataset)"}
+    A.track_self_attrs = True
+    c = P.cls("vtlengine.Interpreter.InterpreterAnalyzer")
+    # first pass over ALL visit methods: which attributes of the interpreter hold (parts of) an operand structure between methods (self.aggregation_dataset, ...)
+    for name, f in sorted(c.methods.items()):
+        if name.startswith("visit_"):
+            A.analyse(f, {}, (f.qualname,))
+    A.memo.clear()
+    n = 0
+    seen: Set[str] = set()
+    for name, f in sorted(c.methods.items()):
+        if not name.startswith("visit_") or (only_methods is not None and name not in only_methods):
+            continue
+        summ = A.analyse(f, {}, (f.qualname,))
+        n += 1
+        rep.instance(rule, f"interpreter/{name}", nontrivial=True, sample={"method": name, "mutations_of_operand_structures": len(summ.sites)} if summ.sites or name in ("visit_Aggregation", "visit_ParamOp") else None)
+        for s_ in summ.sites:
+            norm = s_.norm or s_.text
+            if any(r[0] == s_.func and norm.startswith(r[1]) and r[0].startswith("vtlengine.Operators.") for r in OPERAND_MUTATION_REFERENCE):
+                continue
+            k = f"{s_.func}/{norm[:70]}"
+            if k in seen:
+                continue
+            seen.add(k)
+            rep.add(Finding(rule, f"{rule}/{k}", s_.file, s_.line, s_.func,
+                            f"`{s_.text[:90]}` mutates {', '.join(sorted(set(s_.origins)))} (reached from InterpreterAnalyzer.{name}): visit_VarID hands out a shallow copy, so the components "
+                            f"dict and the Component objects are those of the dataset stored for the rest of the script - a later statement (or the same one) no longer finds the component"))
+    rep.floor(f"{rule} interpreter visit methods analysed", n, floor if only_methods is None else len(only_methods))
     return n
